@@ -165,10 +165,18 @@ def _check_outputs_initialised(ctx):
     lc = [n for n in ast.walk(g.node) if isinstance(n, ast.Call)
           and callee_is(prog, g, n, "LinearConfidence")]
     ctx.require(len(lc) == 1, f"{g.qual}: LinearConfidence call not found")
-    op = {k.arg: k.value for k in lc[0].keywords}.get("out_paths")
+    op = prog.bind(prog.func(
+        "mokapot.confidence.LinearConfidence.__init__"), lc[0]).get(
+        "out_paths")
     ctx.require(op is not None, f"{g.qual}: out_paths not passed")
     roots = {x[1] for x in walk_term(T.of(op)) if isinstance(x, tuple)
              and x and x[0] == "var"}
+    # a local list that is filled and then filed into the container
+    # (paths = []; paths.append(p); out[level] = paths) is part of it
+    for e in evs:
+        if root_name(e.recv) in roots and e.kind == "store" and \
+                e.value is not None and e.value[0] == "var":
+            roots = roots | {e.value[1]}
     handed = []         # (path term, condition strings)
     for e in evs:
         if root_name(e.recv) not in roots:
